@@ -195,6 +195,8 @@ def make_value(spec):
         return None
     if t == 'list':
         return list(spec[1])
+    if t == 'tuple':
+        return tuple(spec[1])
     if t == 'thing':
         return Thing(spec[1])
     raise ValueError(t)
@@ -358,6 +360,16 @@ def check_laws(s):
         r = render_opts([m], dict(x=s))
         if r != F[m](s):
             bad.append(('law:%s' % m, '%r -> %r' % (s, r)))
+    if NUMERIC.match(s):
+        # digits of the integer part grouped in threes, the rest untouched
+        exp = thou_numeric(s)
+        for how, r in (('modifier', render_opts(['thousands_commas'],
+                                                dict(x=s))),
+                       ('epfs', render_opts(['thousands_commas'], dict(x=s),
+                                            's'))):
+            if r != exp or r.replace(',', '') != s:
+                bad.append(('law:thousands_commas', '%s: %r -> %r expected '
+                            '%r' % (how, s, r, exp)))
     return bad
 
 
@@ -397,8 +409,18 @@ def strategy():
                             '"x"', '1', '1234', '5678901', '.5', 'é', 'ß',
                             '中', 'word ', 'ab_cd', '%', '%%', ';'])
     text = st.lists(frag, max_size=10).map(''.join)
+    digits = st.text('0123456789', min_size=1, max_size=12)
+    numeric = st.builds(
+        lambda neg, w, f: neg + w + ('.' + f if f else ''),
+        st.sampled_from(['', '', '-']), digits,
+        st.one_of(st.just(''), st.text('0123456789', min_size=1,
+                                       max_size=9)))
     value = st.one_of(
         text.map(lambda s: ['str', s]), text.map(lambda s: ['str', s]),
+        numeric.map(lambda s: ['str', s]),
+        st.floats(-1e9, 1e9, allow_nan=False).map(lambda f: ['float', f]),
+        st.lists(st.one_of(st.integers(-5, 5), st.sampled_from(
+            ['a', 'b c'])), max_size=3).map(lambda l: ['tuple', l]),
         st.integers(-10 ** 9, 10 ** 9).map(lambda i: ['int', i]),
         st.floats(-1e6, 1e6, allow_nan=False).map(
             lambda f: ['float', round(f, 3)]),
